@@ -30,6 +30,9 @@ func (v Violation) String() string { return v.Property + "/" + v.Kind + ": " + v
 
 type violationPanic struct{ v Violation }
 
+// knownStop ends a run quietly after an open known finding was hit.
+type knownStop struct{}
+
 // Known is one entry of /verif/known_findings.json.
 type Known struct {
 	ID       string `json:"id"`
@@ -39,6 +42,11 @@ type Known struct {
 	Status   string `json:"status"` // "open" or "fixed"
 	Commit   string `json:"commit,omitempty"`
 	What     string `json:"what"`
+	// Continue: the run goes on after this finding was hit (only for
+	// findings that leave the operation's result meaningful); by default
+	// the run ends quietly, so that consequences of the known defect are
+	// not reported as new violations.
+	Continue bool `json:"continue,omitempty"`
 	re       *regexp.Regexp
 }
 
@@ -178,7 +186,10 @@ func (r *Run) Violate(kind, format string, args ...interface{}) {
 		if k := matchKnown(v); k != nil {
 			r.KnownHits[k.ID]++
 			r.Logf("known-finding %s: %s", k.ID, v.String())
-			return
+			if k.Continue {
+				return
+			}
+			panic(knownStop{})
 		}
 	}
 	r.Logf("VIOLATION %s", v.String())
@@ -299,6 +310,7 @@ func Execute(p *Profile, tier string, seed uint64, t *tape.Tape, index int, hang
 				case violationPanic:
 					v := e.v
 					r.Viol = &v
+				case knownStop:
 				case tape.ErrTooManyDraws:
 					infra = "run drew more than the tape bound"
 				default:
